@@ -26,9 +26,11 @@ let run_cwlog (toks : string list) : string =
         if Stdlib.String.length t >= 2 && Stdlib.String.sub t 0 2 = "X:" then
           (xml := Some (bytes_of_hex (Stdlib.String.sub t 2 (Stdlib.String.length t - 2))); false)
         else true) rest in
+    let callops = ref [] in
     let trailer (d : Device.dev) finops logmark =
       let o = function Some i -> string_of_int i | None -> "-" in
       dev_summary d ^ " finops=" ^ o finops ^ " logmark=" ^ o logmark
+      ^ " callops=" ^ Stdlib.String.concat "," (Stdlib.List.rev_map string_of_int !callops)
       ^ (if has "log" then
            " log=" ^ Stdlib.String.concat "," (Stdlib.List.rev_map (fun (p, bs) -> decimal_of_n p ^ ":" ^ hex_of_bytes bs) d.Device.d_log)
          else "")
@@ -46,6 +48,8 @@ let run_cwlog (toks : string list) : string =
          | FileBin.OPc (o, n) -> Printf.sprintf "p%s:%s" (decimal_of_n o) (decimal_of_n n) in
        let r0 = run FileBin.writer_init in
        outs := [res_tok r0 (fun () -> "o")];
+       let mark () = callops := int_of_n (!st).PagedWriter.pw_dev.Device.d_ops :: !callops in
+       if r0 = Prelude.Ok () then mark ();
        let finops = ref None and logmark = ref None in
        if r0 = Prelude.Ok () then begin
          let stopped = ref false in
@@ -74,12 +78,14 @@ let run_cwlog (toks : string list) : string =
                     | Prelude.Panic -> "P")
                  | _ -> failwith ("bad item " ^ t) in
                outs := o :: !outs;
+               mark ();
                if is_failure o && has "stop" then stopped := true
              end) items;
          (match !xml with
           | Some x when not (has "nofin") && not !stopped ->
             logmark := Some (Stdlib.List.length (!st).PagedWriter.pw_dev.Device.d_log);
             let r = run (FileBin.writer_finalize x) in
+            mark ();
             outs := res_tok r (fun () -> "o") :: !outs
           | _ -> ());
          finops := Some (int_of_n (!st).PagedWriter.pw_dev.Device.d_ops)
